@@ -41,7 +41,7 @@ fn kernel_echo<S>(storage: &S, ptr: *const libc::c_void, len: u32) -> MaybeUnini
     out
 }
 
-//@ prop: C16
+//@ prop: C16 C13
 //@ tier: quick
 //@ what: SocketAddrV4: into_storage -> as_ptr is exactly (storage, sizeof sockaddr_in), family AF_INET, sin_zero zero -> init of the echoed bytes == original; as_mut_ptr length == sizeof
 //@ bound: all 2^32 addresses x 2^16 ports
@@ -64,7 +64,7 @@ fn c16_ipv4_roundtrip() {
     kani::cover!(a.port() == 0x1234);
 }
 
-//@ prop: C16
+//@ prop: C16 C13
 //@ tier: quick
 //@ what: SocketAddrV6: pair is exactly (storage, sizeof sockaddr_in6 = 28), family AF_INET6; ip, port, flowinfo and scope id survive the round trip
 //@ bound: all addresses, ports, flow labels, scope ids
@@ -87,7 +87,7 @@ fn c16_ipv6_roundtrip() {
     kani::cover!(a.flowinfo() != 0 && a.scope_id() != 0);
 }
 
-//@ prop: C16
+//@ prop: C16 C13
 //@ tier: quick
 //@ what: SocketAddr (either family): the length handed to the kernel is 16 for V4 and 28 for V6 (never the 28-byte storage for a V4 address), receive buffer is the full storage, and init with the length the kernel reports for that family restores the address
 //@ bound: all V4 and V6 addresses
@@ -109,7 +109,7 @@ fn c16_ip_either_roundtrip() {
     kani::cover!(a.is_ipv6());
 }
 
-//@ prop: C16
+//@ prop: C16 C13
 //@ tier: quick
 //@ what: NoAddress hands the kernel a null pointer and length 0
 //@ bound: single value
@@ -315,7 +315,7 @@ fn c16_unix_abstract() {
     kani::cover!(n == 0);
 }
 
-//@ prop: C16
+//@ prop: C16 C13
 //@ tier: quick
 //@ what: Unix unnamed address: handed to the kernel as an unnamed address (length 2, not a 108-byte abstract name of NULs) and read back from length 2 as unnamed
 //@ bound: single value
